@@ -88,9 +88,8 @@ def dcStepQuad (k i : Nat) : Vector α c.o.nxq :=
     0
 
 /-- cumulative quadrature before step `(k,i)` (index `k*M+i` of `xqk`) -/
-def dcQuadBefore : Nat → Vector α c.o.nxq
-  | 0 => 0
-  | n+1 => dcQuadBefore n + c.dcStepQuad (n / c.M) (n % c.M)
+def dcQuadBefore (n : Nat) : Vector α c.o.nxq :=
+  cumSum (α := α) (fun m => c.dcStepQuad (m / c.M) (m % c.M)) n
 
 /-- `Z[k]` for DirectCollocation: extrapolation of the algebraic polynomial -/
 def dcZnode (k : Nat) : Array α :=
